@@ -1,6 +1,7 @@
 package props
 
 import (
+	"go/token"
 	"fmt"
 	"strings"
 
@@ -183,7 +184,7 @@ func runC02(c *eng.Ctx) {
 		pend := c.One(f, invokeOnGeneric(".pendingOutputs", "Range"), "pendingOutputs.Range")
 		act := c.One(f, invokeOn(".familyVersion", "GetAllActiveFiles"), "familyVersion.GetAllActiveFiles()")
 		rol := c.One(f, invokeOn(".familyVersion", "GetLiveRollupFiles"), "familyVersion.GetLiveRollupFiles()")
-		dels := c.Some(f, eng.CallTo(famT+".deleteSST"), "deleteSST")
+		dels := c.Some(f, eng.AnyCallTo("var:kv.removeDirFunc"), "removal of a table file (removeDirFunc)")
 		evs := c.Some(f, invokeOn(".store", "evictFamilyFile"), "store.evictFamilyFile")
 		for _, src := range []eng.Site{pend, act, rol} {
 			for i, d := range append(append([]eng.Site{}, dels...), evs...) {
@@ -197,39 +198,47 @@ func runC02(c *eng.Ctx) {
 		// the pending range closure puts keys into the same map the deletion loop consults
 		facts := p.MustFacts(f)
 		for i, d := range dels {
-			fs := facts.At(d.Instr)
-			absent := facts.Find(fs, "false", func(dd string, v ssa.Value) bool {
-				e, ok := v.(*ssa.Extract)
-				if !ok || e.Index != 1 {
-					return false
-				}
-				_, isLookup := e.Tuple.(*ssa.Lookup)
-				return isLookup
-			}, nil)
-			// `keep` is a phi of (true, lookup ok): the deletion is under !keep
-			notKeep := facts.Find(fs, "false", func(dd string, v ssa.Value) bool {
-				ph, ok := v.(*ssa.Phi)
-				if !ok {
-					return false
-				}
-				for _, e := range ph.Edges {
-					if ex, ok := e.(*ssa.Extract); ok {
-						if _, isLookup := ex.Tuple.(*ssa.Lookup); isLookup {
-							return true
-						}
+			// the removal is guarded by "not in the keep-set": a guard derived from the comma-ok lookup, taken on its false side
+			conds, taken := eng.GuardingConds(f, d.Instr)
+			okGuard := false
+			detail := ""
+			for k, cd := range conds {
+				v := cd
+				neg := false
+				for {
+					if u, ok := v.(*ssa.UnOp); ok && u.Op == token.NOT {
+						neg = !neg
+						v = u.X
+						continue
 					}
+					break
 				}
-				return false
-			}, nil)
-			c.Check(len(absent)+len(notKeep) > 0, fmt.Sprintf("delete-only-if-absent[%d]", i), d.Instr, f, "a table is deleted only when its number is absent from the keep-set", "facts: "+strings.Join(facts.Render(fs), " ; "))
+				fromLookup := eng.DependsOn(v, func(x ssa.Value) bool {
+					e, ok := x.(*ssa.Extract)
+					if !ok || e.Index != 1 {
+						return false
+					}
+					_, isLookup := e.Tuple.(*ssa.Lookup)
+					return isLookup
+				})
+				if !fromLookup {
+					continue
+				}
+				present := taken[k] != neg // the guard holds with ok/keep == present
+				detail += fmt.Sprintf("guard %s taken=%v; ", p.Desc(cd), taken[k])
+				if !present {
+					okGuard = true
+				}
+			}
+			c.Check(okGuard, fmt.Sprintf("delete-only-if-absent[%d]", i), d.Instr, f, "a table is deleted only when its number is absent from the keep-set", detail)
 			c.Check(eng.DominatedBy(f, d.Instr, evs, nil), fmt.Sprintf("evict<delete[%d]", i), d.Instr, f, "the cached reader is evicted (unmapped) before the file is removed", "")
 			a := eng.CallArgs(d.Instr.(*ssa.Call))[0]
 			ea := eng.CallArgs(evs[0].Instr.(*ssa.Call))[0]
-			c.Check(a == ea, fmt.Sprintf("same-file[%d]", i), d.Instr, f, "the evicted and the deleted file are the same number", "")
+			c.Check(eng.DependsOn(a, func(x ssa.Value) bool { return x == ea || eng.SameValue(x, ea) }), fmt.Sprintf("same-file[%d]", i), d.Instr, f, "the evicted and the deleted file are the same number", "removes "+p.Desc(a)+", evicts "+p.Desc(ea))
 		}
 		// only table files are subject to deletion: the lookup that can clear `keep` is under FileType == TypeTable
 		var look ssa.Instruction
-		for _, b := range f.Blocks {
+		for _, b := range eng.BlocksT(f) {
 			for _, in := range b.Instrs {
 				if l, ok := in.(*ssa.Lookup); ok && l.CommaOk {
 					look = in
@@ -243,7 +252,7 @@ func runC02(c *eng.Ctx) {
 		c.Check(len(tt) > 0, "only-table-files", look, f, "only files of type table can lose their keep status", "")
 		// the three sources feed the map that is looked up
 		lm := look.(*ssa.Lookup).X
-		for _, b := range f.Blocks {
+		for _, b := range eng.BlocksT(f) {
 			for _, in := range b.Instrs {
 				if mu, ok := in.(*ssa.MapUpdate); ok {
 					c.Check(eng.SameValue(mu.Map, lm) || mu.Map == lm, "feeds-keep-set:"+p.InstrPos(in), in, f, "every collected number goes into the map the deletion consults", "")
@@ -252,7 +261,7 @@ func runC02(c *eng.Ctx) {
 		}
 		ga := c.Fn(fvT + ".GetAllActiveFiles")
 		rg := false
-		for _, b := range ga.Blocks {
+		for _, b := range eng.BlocksT(ga) {
 			for _, in := range b.Instrs {
 				if r, ok := in.(*ssa.Range); ok && eng.DependsOnField(r.X, fvT+".activeVersions") {
 					rg = true
@@ -359,7 +368,7 @@ func snapshotTypestate(c *eng.Ctx) {
 		}
 		// deferred close directly or inside a deferred closure of this function
 		deferred := false
-		for _, b := range fn.Blocks {
+		for _, b := range eng.BlocksT(fn) {
 			for _, in := range b.Instrs {
 				if d, ok := in.(*ssa.Defer); ok {
 					if isClose(d) {
@@ -368,7 +377,7 @@ func snapshotTypestate(c *eng.Ctx) {
 					if mc, ok := d.Call.Value.(*ssa.MakeClosure); ok {
 						cf := mc.Fn.(*ssa.Function)
 						// closure closes a captured snapshot variable
-						for _, cb := range cf.Blocks {
+						for _, cb := range eng.BlocksT(cf) {
 							for _, cin := range cb.Instrs {
 								if cl, ok := cin.(ssa.CallInstruction); ok {
 									cc := cl.Common()
@@ -402,7 +411,7 @@ func snapshotTypestate(c *eng.Ctx) {
 		c.Check(okk, "closed:"+key, call, fn, "a snapshot obtained here is closed on every path or handed to a listed owner ("+how+")",
 			"no Close on some path to a return and the function is not a listed owner")
 		// no use of a reader obtained from the snapshot after an explicit (non-deferred) Close in the same function
-		for _, b := range fn.Blocks {
+		for _, b := range eng.BlocksT(fn) {
 			for _, in := range b.Instrs {
 				if _, isDefer := in.(*ssa.Defer); isDefer || !isClose(in) {
 					continue
